@@ -296,6 +296,9 @@ func runCheck(prop, tier string) int {
 	knownSeen := map[string]bool{}
 	exit := 0
 	outDir := filepath.Join(verifDir(), "out", "violations")
+	if d := os.Getenv("VERIF_EVIDENCE_DIR"); d != "" {
+		outDir = filepath.Join(d, "violations")
+	}
 	for _, af := range allFound {
 		if af.f.Prop != prop {
 			continue // oracles of other properties never run in this check; defensive
@@ -376,9 +379,13 @@ func runCheck(prop, tier string) int {
 		"violations": nviol,
 		"hard_errors": hard,
 	}
-	os.MkdirAll(filepath.Join(verifDir(), "evidence"), 0o755)
+	evDir := filepath.Join(verifDir(), "evidence")
+	if d := os.Getenv("VERIF_EVIDENCE_DIR"); d != "" {
+		evDir = d
+	}
+	os.MkdirAll(evDir, 0o755)
 	b, _ := json.MarshalIndent(evd, "", " ")
-	if err := ioutil.WriteFile(filepath.Join(verifDir(), "evidence", prop+".json"), b, 0o644); err != nil {
+	if err := ioutil.WriteFile(filepath.Join(evDir, prop+".json"), b, 0o644); err != nil {
 		fmt.Fprintln(os.Stderr, err)
 		return 2
 	}
